@@ -130,7 +130,7 @@ def oracle(ck, tier, deep):
                     ck.violation(dict(site="GaussianAnalytical", clause="abel-pair"), dict(rep, x=xg, n=ng), f"abel {g.abel[i]:.12g} vs quadrature {wantg:.12g}")
     # ---- Polynomial wrappers
     for _ in range(6 if not deep else 60):
-        n = int(rng.integers(11, 60)) | 1
+        n = int(rng.integers(11, 60))            # odd and even (an even symmetric grid has no sample on the axis)
         rmax = float(rng.uniform(5, 30))
         c = rng.normal(size=int(rng.integers(1, 5)))
         rmin_, rmax_ = sorted(rng.uniform(0, rmax, size=2))
@@ -140,6 +140,11 @@ def oracle(ck, tier, deep):
             p = quiet(analytical.Polynomial, n, rmax, rmin_, rmax_, c, r_0=r0, s=s_, symmetric=sym,
                       reduced=bool(rng.integers(0, 2)))          # (`reduced` only rescales internally: same function, same transform)
             pw = quiet(analytical.PiecewisePolynomial, n, rmax, [(rmin_, rmax_, c, r0, s_), (0.0, rmin_, [1.0, 0.1])], symmetric=sym)
+            if not (p.r.shape == p.func.shape == p.abel.shape == pw.func.shape == pw.abel.shape == (n,)):
+                ck.violation(dict(site="analytical.Polynomial", clause="layout"), dict(n=n, symmetric=sym),
+                             f"n={n}, symmetric={sym}: r has {p.r.shape[0]} positions, func / abel have {p.func.shape[0]} / {p.abel.shape[0]} "
+                             f"(piecewise: {pw.func.shape[0]} / {pw.abel.shape[0]}) samples")
+                continue
             f = lambda q: np.polyval(c[::-1], (q - r0) / s_) * ((q >= rmin_) & (q < rmax_))
             f2 = lambda q: f(q) + (1.0 + 0.1 * q) * ((q >= 0) & (q < rmin_))
             for i in rng.integers(0, n, size=3):
@@ -171,6 +176,13 @@ def oracle(ck, tier, deep):
                              f"profile{k}: projection at r={x:.4f} is {got:.10g}, Abel integral of its source is {want:.10g}")
                 break
         ck.notes.append(f"profile{k}: max |abel - quadrature| = {worst:.2e}")
+        # the functions take any array of radii: each value is answered in its own place, sorted or not
+        rr = rng.uniform(0.01, 0.99, size=9)
+        ss, pp = prof(rr)
+        one = [prof(np.atleast_1d(v)) for v in rr]
+        if not (np.array_equal(ss, [o[0][0] for o in one]) and np.array_equal(pp, [o[1][0] for o in one])):
+            ck.violation(dict(site="transform_pairs", profile=k, clause="array-order"), dict(profile=k, r=rr.tolist()),
+                         f"profile{k}(r) for an unsorted array r does not return the values of r[i] at position i")
         tp = quiet(analytical.TransformPair, 31, profile=k)
         if tp.r[0] != 0 or abs(tp.r[-1] - 1) > 1e-15 or abs(tp.dr - 1 / 30) > 1e-15:
             ck.violation(dict(site="TransformPair", clause="grid"), dict(profile=k), "TransformPair grid is not linspace(0, 1, n)")
